@@ -369,6 +369,11 @@ class Verifier:
         if not res.engine_error and res.exits.get('return', 0) == 0 and \
                 not getattr(c.spec_cls, 'never_returns', False):
             res.engine_error = 'vacuity: no normal exit is reachable under the contract'
+        for k, lc in c.loops.items():
+            if lc.invariant is not None and not lc.never_iterates and not res.engine_error and \
+                    not any(f'/loop{k}.preserve' in n for n in res.obls):
+                res.engine_error = (f'vacuity: the body of loop {k} was never verified on a '
+                                    f'feasible path')
         for name, _ in c.covers:
             if not res.engine_error and res.exits.get(f'cover:{name}', 0) == 0:
                 res.engine_error = f'vacuity: cover {name!r} is unreachable under the contract'
